@@ -61,10 +61,11 @@ P = {
          "spec behaviours replayed on real code with every model address probed in both forms; T: 650+-op real histories crossing "
          "the real 256-slot switch judged by TLC against the abstract set",
          "16-byte CIDR arguments not exercised as valid input; embedding argument in DESIGN 5/C11", "5/C11"),
- "C12": ("spec/netutil/IPv4FilterConc.tla (+IPv4FilterConcMC, IPv4FilterConcCases)",
+ "C12": ("spec/netutil/IPv4FilterConc.tla (+IPv4FilterConcMC, IPv4FilterConcCases), proofs/netutil/IPv4FilterConcProof.tla",
          "TLA+ model of the RWMutex protocol with the migration as several steps inside the critical section and interval "
          "bookkeeping (definitely/possibly present) as the statement; TLC checks all interleavings of 2 writers + readers and rejects "
-         "the lock-free reader; real traces (-race build, dwell hooks in critical sections) judged by TLC with the same bookkeeping",
+         "the lock-free reader; the lock discipline (mutual exclusion; a lookup never scans a half-migrated filter) is also proved for ANY "
+         "writers / readers / programs with the TLA+ proof system (51 obligations); real traces (-race build, dwell hooks in critical sections) judged by TLC with the same bookkeeping",
          "TLC-exhaustive interleavings in the bounded model; every recorded lookup of the real filter under churn across the switch "
          "must satisfy: stable range covers => true, true => some possibly-present range covers; race detector reports are violations",
          "witnessed schedules only (widened by seeded dwell inside the locked regions); Go race detector", "5/C12"),
